@@ -30,12 +30,14 @@ fn error_bounds<const B: Word>(
             if f.context.precision != 0 {
                 let (b, sig, exp, p) = (B as int, f.repr.significand.v(), f.repr.exponent as int, f.context.precision as int);
                 let d = ndigits(b, sig) as int;
+                let pw = eb_pow(sig);
+                let g = eb_g(b, sig);
                 let m = sig * ipow(b, (p - d) as nat);
                 lemma_grid_sig(b, sig, (p - d) as nat);
-                lemma_half_units(b, exp + d - p);
-                lemma_eb_table(Mode::Zero, m);
-                let t = eb_table(Mode::Zero, m);
-                assert(eb_exact(Mode::Zero, m, t.0, t.1, ret.2, ret.3));
+                lemma_half_units(b, exp + d - p, pw);
+                lemma_eb_table(Mode::Zero, m, g);
+                let t = eb_table(Mode::Zero, m, g);
+                assert(eb_exact(Mode::Zero, m, g, t.0, t.1, ret.2, ret.3));
             }
         } @*/
     }
